@@ -442,6 +442,10 @@ pub fn fold_case(t: usize, syms: &[usize]) -> Case {
 }
 
 fn main() {
+    kvh::on_thread(real_main);
+}
+
+fn real_main() {
     let args = kvh::parse_args("C12", "c12");
     let mut ctx = Ctx::new(args.clone(), RULE);
     if let Some(p) = &args.replay {
